@@ -226,7 +226,9 @@ def cache_run(data):
     return dict(maxlen=cache.queue.maxlen, trace=out[len(data['pre']):],
                 consistent=guard(lambda: [len(cache.rev) == len(cache.queue),
                                           all(k in cache.idx for ks in cache.rev.values() for k in ks),
-                                          len(cache.queue) <= cache.queue.maxlen]))
+                                          len(cache.queue) <= cache.queue.maxlen,
+                                          set(cache.idx) == set().union(*cache.rev.values()),
+                                          set(cache.rev) == set(cache.queue)]))
 
 
 def main():
